@@ -94,7 +94,12 @@ def body(c, ctx):
     J = Functional(form0, dtype=dtype).assemble(ub, uh=uh, vh=vh, **fkw(fref))
     Jabs = float(np.abs(Functional(form0abs).assemble(ub, uh=uh, vh=vh, **fkw(fref))))
     vAu = v @ (A @ u)
-    S = float(np.abs(v) @ (abs(A) @ np.abs(u))) + Jabs + abs(J)
+    # magnitude of what is being summed: the same tree with absolute values (bounds the cancellation inside every entry)
+    def form2abs(*a):
+        return np.abs(gi.eval_tree(tree, a[:nu], a[nu:nu + nv], a[-1]))
+    Aabs = abs(BilinearForm(form2abs).assemble(ub, vb, **fkw(fm)))
+    rowscale = np.asarray(Aabs @ np.abs(u)).ravel()
+    S = float(np.abs(v) @ (abs(A) @ np.abs(u))) + Jabs + abs(J) + float(np.abs(v) @ rowscale)
     tol = 1e-9
     detail = f'{lab} | {gi.describe(tree, uh, vh)}'
     if not abs(vAu - J) <= tol * S:
@@ -108,7 +113,7 @@ def body(c, ctx):
             if not abs(bv - J) <= tol * (S + float(np.abs(b) @ np.abs(v))):
                 ctx.fail('linear_vs_functional', f'b^T v = {bv!r}, J = {J!r}, scale {S:.3e} | {detail}', **sig)
             Au = A @ u
-            if not np.all(np.abs(Au - b) <= tol * (abs(A) @ np.abs(u) + np.abs(b) + S / max(1, vb.N))):
+            if not np.all(np.abs(Au - b) <= tol * (abs(A) @ np.abs(u) + np.abs(b) + rowscale)):
                 ctx.fail('matrix_vs_vector', f'A u differs from b(u_h): max {np.abs(Au - b).max():.3e} | {detail}', **sig)
     # elemental contributions
     el = Functional(form0, dtype=dtype).elemental(ub, uh=uh, vh=vh, **fkw(fref))
